@@ -24,7 +24,7 @@ MIN_SUPPLIED = Fraction(1, 10**10)
 AMOUNTS_FULL = ["0.00000000001", "0.00000000003", "0.00012345678", "0.3", "1", "7.77777777777", "12345.678901", "1000000000"]
 PRICES_FULL = ["0.00000001", "0.000123", "0.07", "1", "3.33", "19999.99", "10000000"]
 AMOUNTS_QUICK = ["0.00000000001", "0.3", "7.77777777777", "1000000000"]
-PRICES_QUICK = ["0.00000001", "0.07", "3.33", "10000000"]
+PRICES_QUICK = ["0.00000001", "0.000123", "0.07", "3.33", "10000000"]
 METHODS = ("fifo", "lifo", "hifo", "lofo")
 
 T0 = "2020-03-01 12:00:00+00:00"
@@ -39,6 +39,9 @@ def lot_spec(row: int, ts: str, amount: str, price: str, fee: str, supplied: str
     a, p = F(amount), F(price)
     if fee == "fiat":
         s["fiat_fee"] = H.dec(Fraction(123, 100))
+    if fee == "crypto":
+        # fee of the acquisition paid in crypto: its fiat value (fee x spot price) is part of the cost basis
+        s["crypto_fee"] = H.dec(a / 8)
     if supplied != "absent":
         k = Fraction(1) if supplied == "consistent" else Fraction(101, 100)
         no_fee = a * p * k
@@ -174,7 +177,7 @@ def cases(tier: str) -> Iterator[Tuple[str, List[Dict[str, Any]], Tuple[str, ...
     amounts = AMOUNTS_QUICK if tier == "quick" else AMOUNTS_FULL
     prices = PRICES_QUICK if tier == "quick" else PRICES_FULL
     fa = [F(a) for a in amounts]
-    lot_fees = ("none", "fiat")
+    lot_fees = ("none", "fiat", "crypto")
     ev_fees = ("none", "crypto", "fiat")
     supplied = ("absent", "consistent", "different")
     classes = ("sell", "fee", "intra")
